@@ -51,6 +51,7 @@ import itertools
 import os
 import shutil
 import sqlite3
+import warnings
 
 from sqlalchemy import FetchedValue
 from sqlalchemy import ForeignKey
@@ -358,6 +359,14 @@ def _env_error(e):
 
 
 def execute(world, prognames, choices, rec=None):
+    # warnings are captured, not raised or printed (e.g. "DELETE ... expected to delete 1 row(s); 0 were matched"
+    # on a sub-table just before the versioned base-table DELETE raises StaleDataError)
+    with warnings.catch_warnings():
+        warnings.simplefilter("ignore", sa_exc.SAWarning)
+        return _execute(world, prognames, choices, rec)
+
+
+def _execute(world, prognames, choices, rec=None):
     """run one maximal interleaving: follow `choices` (actor indexes) then always the
     lowest enabled actor.  -> (trace, branch_points, problems, stats)
     branch_points[i] = list of enabled actors at step i (for the DFS)"""
